@@ -72,6 +72,22 @@ pub async fn wt_read_to_end(r: &mut RecvStream, rbuf: usize) -> (Vec<u8>, String
             }
         }
     }
+    if rbuf == 17 {
+        // this buffer size reads 40 000-byte records with `read_exact`: one call spans several
+        // arrivals; the last record ends early with the count of bytes that are valid
+        let mut rec = vec![0u8; 40_000];
+        loop {
+            match bounded(r.read_exact(&mut rec)).await {
+                None => return (out, "timeout".into()),
+                Some(Ok(())) => out.extend_from_slice(&rec),
+                Some(Err(wtransport::error::StreamReadExactError::FinishedEarly(k))) => {
+                    out.extend_from_slice(&rec[..k.min(rec.len())]);
+                    return (out, "eos".into());
+                }
+                Some(Err(wtransport::error::StreamReadExactError::Read(e))) => return (out, canon::read_err(&e)),
+            }
+        }
+    }
     loop {
         match bounded(r.read(&mut buf)).await {
             None => return (out, "timeout".into()),
@@ -1176,7 +1192,7 @@ fn gen_stream_rt(
     if len <= 70_000 {
         wchunks.push(7);
     }
-    let mut rbufs = vec![13usize, 4096, 65536];
+    let mut rbufs = vec![13usize, 17, 4096, 65536];
     if len <= 2000 {
         rbufs.push(1);
     }
@@ -1206,7 +1222,7 @@ fn gen_stream_rt(
     const OPS: usize = 400_000;
     loop {
         let w_ops = if wchunk == 0 { 0 } else { len * n / wchunk };
-        let r_ops = len * n / rbuf;
+        let r_ops = len * n / if rbuf == 17 { 40_000 } else { rbuf };
         if w_ops <= OPS && r_ops <= OPS {
             break;
         }
@@ -1249,6 +1265,18 @@ fn gen_c01(thorough: bool, rng: &mut Rng, emit: &mut dyn FnMut(&str, Vec<String>
                 _ => rng.range(20_000, 400_000) as usize,
             };
             gen_stream_rt(rng, emit, role, len, n_choices);
+        }
+        if round == 0 {
+            // `read_exact` records that span several arrivals
+            for role in ROLES {
+                for (len, wchunk) in [(100_000usize, 1000usize), (1_000_000, 65536), (40_000, 7000), (39_999, 0)] {
+                    let rt = *rng.pick(&RTS);
+                    emit(
+                        "stream.rt",
+                        vec![s(rt), s(role), s(len), s(wchunk), s(17), s(1), s(rng.below(1_000_000))],
+                    );
+                }
+            }
         }
         if thorough && round == 0 {
             // many concurrent small streams
